@@ -182,6 +182,7 @@ def check_indent(strutils, text, setting):
 def split_shard(arg):
     """arg = (length, prefix tuple, with_indent)"""
     from boltons import strutils
+    strutils = inputs.SecondCallModule(strutils, names=('iter_splitlines', 'indent'))     # see inputs.second_call
     n, prefix, with_indent = arg
     t = inputs.Tally()
     head = ''.join(prefix)
